@@ -184,6 +184,8 @@ def run(ctx):
         if all(b == "0" for b in budgets.split(",")):
             budgets += ",1"
         cases.append("wr %s %s %s" % (mode, budgets, hx(data)))
+        if rng.random() < 0.3:       # through a buffering writer: the frame must have left it when write_framed returns
+            cases.append("wr %s B%d:%s %s" % (mode, rng.choice([1, 4, 64, 8192]), budgets, hx(data)))
 
     def nontrivial(c, impl):
         t = c.split()
